@@ -5,7 +5,6 @@
 package main
 
 import (
-	"bytes"
 	"fmt"
 	"math/rand"
 	"sort"
@@ -89,16 +88,7 @@ func build(c *wk.Ctx, i int, r *rand.Rand) (*workload, error) {
 		if bigKeys {
 			// keys of a few KiB: a manifest record (which carries the smallest and largest key of every
 			// table it adds) then regularly spans a 32 KiB journal block, i.e. is written in two pieces
-			seen := map[string]bool{}
-			var pool [][]byte
-			for _, k := range kg.Pool {
-				k = append(append(append([]byte(nil), k...), 1), bytes.Repeat([]byte{'z'}, 1500+rr.Intn(6000))...)
-				if !seen[string(k)] {
-					seen[string(k)] = true
-					pool = append(pool, k)
-				}
-			}
-			kg.Pool = pool
+			kg.Inflate(rr, 1500, 7500)
 		}
 		w.keys = append(w.keys, kg.Pool...)
 		cl := wl.NewClient(db, w.stor, rr, kg, w.os.O, uint32(wi+1))
